@@ -85,6 +85,8 @@ def Sp.series (U : Univ) (sp : Sp) (m : String) (p : Pred) : List Nat := sortNat
 def Sp.tagKeys (U : Univ) (sp : Sp) (m : String) (p : Pred) : List String := tagKeysOf U (sp.series U m p)
 def Sp.tagVals (U : Univ) (sp : Sp) (m : String) (keys : List String) (p : Pred) : List (String × List String) :=
   tagValsOf U (sp.search U m p) keys
+def Sp.tagValCard (U : Univ) (sp : Sp) (m : String) (keys : List String) (p : Pred) : Nat :=
+  (sortDistinct ((sp.tagVals U m keys p).flatMap (·.2))).length
 def Sp.card (U : Univ) (sp : Sp) (m : String) (p : Option Pred) : Nat :=
   match p with
   | none => (sp.search U m .all).length
